@@ -40,14 +40,16 @@ def run(ctx):
             ctx.ob("E4.len.anchor", ty, False, "scalar reader of `%s` not found" % ty)
             continue
         ev = evaluate(f)
-        conv = [s for s in ev.sites.values() if s.callee[0] == "TryFrom::try_from" and s.callee[1][:1] == ("[u8; 32]",)]
+        # `<[u8; 32]>::try_from(value)` or the same conversion written `value.try_into()`
+        _conv_names = ("TryFrom::try_from", "TryInto::try_into")
+        conv = [s for s in ev.sites.values() if (s.callee[0] == "TryFrom::try_from" and s.callee[1][:1] == ("[u8; 32]",)) or (s.callee[0] == "TryInto::try_into" and tuple(s.callee[1][1:2]) == ("[u8; 32]",))]
         imp = [s for s in ev.sites.values() if s.callee[0] in ("helpers::scalar_from_be_bytes", "SecretKey<C>::from_be_bytes") or (s.callee[0] in P.fns and s.callee[0].endswith("::from_be_bytes"))]
         ok = len(conv) == 1 and len(imp) == 1 and B.peel(conv[0].args[0]).op == "param"
         if ok:
             lits = G.path_literals(ev, imp[0].bb, None, checks_only=True)
-            ok = any(a[1] == "switch" and any(t.op == "call" and B.cname(t) == "TryFrom::try_from" for t in subterms(a[2])) for a, p in lits)
+            ok = any(a[1] == "switch" and any(t.op == "call" and B.cname(t) in _conv_names for t in subterms(a[2])) for a, p in lits)
             arr = strip_sites(imp[0].args[0])
-            ok = ok and any(t.op == "call" and B.cname(t) == "TryFrom::try_from" for t in subterms(arr))
+            ok = ok and any(t.op == "call" and B.cname(t) in _conv_names for t in subterms(arr))
         if not ok and len(imp) == 1:
             # the same thing spelled out: `if value.len() != 32 { return Err }; let mut b = [0u8; 32]; b.copy_from_slice(value)`
             arr = B.peel(strip_sites(imp[0].args[0]))
